@@ -13,7 +13,7 @@ package ws
 //@   nullable: bound
 //@   method_invariant anon ==> bound != nil
 //@   lock lock level 50
-//@   guarded_by lock: pending running closed
+//@   guarded_by lock: pending running closed opts ug
 //@   cond cv uses lock
 //@   immutable: addr proto iswss
 //@
